@@ -2,6 +2,7 @@ import CueVerif.Driver.Proto
 import CueVerif.Spec.Modzip
 import CueVerif.Model.ModzipDir
 import CueVerif.Model.ModzipEsc
+import CueVerif.Model.ModzipJoin
 namespace CueVerif.Driver.C15
 open CueVerif CueVerif.Driver CueVerif.Modzip
 
@@ -235,6 +236,10 @@ def handle (ws : List String) : String :=
     match unhex s with
     | some s => optStr (unescapeString s)
     | none => "bad-op"
+  | ["fpjoin", a, b] =>
+    match unhex a, unhex b with
+    | some a, some b => hex (fpJoin a b)
+    | _, _ => "bad-op"
   | ["cmp", a, b] =>
     match unhex a, unhex b with
     | some a, some b => toString (createCmp a b)
